@@ -557,6 +557,10 @@ func (p c18) Exec(t *core.Trace) *core.Result {
 		opt["size"] = 2 << 20
 	case strings.HasPrefix(kind, "ext4"):
 		opt["size"] = 17 << 20
+		if kind == "ext4" && opt["bs"] == 4096 {
+			// the library only creates 4 KiB-block volumes that have a second block group
+			opt["size"] = 160 << 20
+		}
 	default:
 		opt["size"] = 4 << 20
 	}
